@@ -2,7 +2,7 @@
 bytes).  No program is run: the expression tree is folded over the finite ranges of its leaves
 (bool -> {0,1}, fieldless enum -> its discriminants, constants), with a fixpoint for accumulating
 `flags |= ..` updates.  Anything else evaluates to None (unknown) and the caller fails closed."""
-from .core import phi_alts, peel, walk
+from .core import phi_alts, peel, walk, is_call
 
 CAP = 4096
 MASK = {"u8": 0xFF, "u16": 0xFFFF, "u32": 0xFFFFFFFF, "usize": 0xFFFFFFFFFFFFFFFF, "u64": 0xFFFFFFFFFFFFFFFF,
@@ -105,8 +105,20 @@ def evaluate(f, t, env=None, self_local=None, depth=0):
             return None
         m = MASK.get(t[3])
         return set(x & m for x in v) if m else v
+    if k == "param":
+        v = env.get(("param", t[1]))
+        return set(v) if v is not None else None
+    if k == "call":
+        # the caller may fix the result of a call (by callee suffix): `PropertyIdentifier::from(self)` = this identifier
+        for key, vs in env.items():
+            if isinstance(key, tuple) and len(key) == 2 and key[0] == "call" and is_call(t, key[1]):
+                return set(vs)
     if k == "discr":
         inner = peel(t[1])
+        if inner[0] in ("param", "call"):
+            v = evaluate(f, inner, env, self_local, depth + 1)
+            if v is not None:
+                return v
         if inner[0] == "field":
             key = (inner[3], inner[2])
             if key in env:
@@ -155,6 +167,93 @@ def evaluate(f, t, env=None, self_local=None, depth=0):
                 if len(out) > CAP:
                     return None
         return out
+    if k == "agg" and t[1] == "adt":
+        adt = f.adts.get(t[2])
+        if adt and adt["kind"] == "enum" and all(not v["fields"] for v in adt["variants"]):
+            for v in adt["variants"]:
+                if v["name"] == t[3]:
+                    return {v["discr"]}
+        return None
+    if k == "un" and t[1] == "Not":
+        v = evaluate(f, t[2], env, self_local, depth + 1)
+        if v is None or not v <= {0, 1}:
+            return None
+        return set(1 - x for x in v)
+    if k == "call" and t[4] in ("core::cmp::PartialEq::eq", "core::cmp::PartialEq::ne") and len(t[3]) == 2:
+        # structural equality of two fieldless-enum / integer values
+        a, b = peel(t[3][0]), peel(t[3][1])
+        if not (_plain_eq(f, a) or _plain_eq(f, b)):
+            return None
+        va = evaluate(f, a, env, self_local, depth + 1)
+        vb = evaluate(f, b, env, self_local, depth + 1)
+        if va is None or vb is None:
+            return None
+        out = set()
+        for x in va:
+            for y in vb:
+                out.add(int((x == y) == t[4].endswith("::eq")))
+        return out
     if k == "field" or k == "downcast":
         return None
     return None
+
+
+def _plain_eq(f, x):
+    """x is a value of a fieldless enum whose PartialEq is derived (compares discriminants) or of a primitive type"""
+    ty = None
+    if x[0] == "agg" and x[1] == "adt":
+        ty = x[2]
+    elif x[0] == "field":
+        ty = field_type(f, x)
+    if ty in ("bool", "u8", "u16", "u32", "usize"):
+        return True
+    adt = f.adts.get(ty) if ty else None
+    if not adt or adt["kind"] != "enum" or any(v["fields"] for v in adt["variants"]):
+        return False
+    for im in f.impls:
+        if im["trait"] == "core::cmp::PartialEq" and im["self_ty"] == ty:
+            eq = f.bodies.get(im["methods"].get("eq"))
+            return eq is not None and all((bl.get("exp") or "").startswith("macro:PartialEq") for bl in eq.blocks if not bl["cleanup"])
+    return False
+
+
+def evaluate_fn(f, body, env, max_paths=2000):
+    """value set of what `body` returns, path by path: a test whose subject has a single value under `env` is followed
+    along that edge only, and the returned expression is folded per path (one reading for `flags |= BIT` under an `if`,
+    `if c { A | B } else { A }`, `A | ((c as u8) << 3)` and a `match`)"""
+    from . import paths
+
+    def hook(b, bb, si):
+        subj = si["subject"]
+        on = b.switches[bb]["on"]
+        pl = on.get("move") or on.get("copy")
+        if si.get("path") and pl is not None and not pl["proj"]:
+            pv = paths.value_on_path(b, si["path"], pl["l"])
+            if pv is not None:
+                subj = pv
+        vs = evaluate(f, subj, env)
+        if vs is None or len(vs) != 1:
+            return None
+        v = next(iter(vs))
+        tgt = b.switches[bb]["otherwise"]
+        for val, t_ in b.switches[bb]["arms"]:
+            if val == v:
+                tgt = t_
+        return (("k", bb), {v: tgt})
+
+    out = set()
+    n = 0
+    for lf in paths.explore(body, 0, lambda t: False, lambda b, x: False, switch_hook=hook, max_paths=max_paths):
+        if lf["kind"] == "limit":
+            return None
+        if lf["kind"] != "return":
+            continue
+        v = paths.value_on_path(body, lf["path"], 0)
+        if v is None:
+            return None
+        vs = evaluate(f, v, env)
+        if vs is None:
+            return None
+        out |= vs
+        n += 1
+    return out if n else None
